@@ -71,14 +71,16 @@
     reply and sent no kill-mode CANCEL, and no INTERRUPT with a reason was sent
     for ([y],[i]) — a kill-mode CANCEL marks the record, later CANCELs and the
     timer then send nothing ([CancelEx]); INTERRUPTs of the first kind may
-    follow any number of times. *)
+    follow any number of times.  [realm_interrupt_at_most_once]: two INTERRUPTs
+    with a reason for the same ([y],[i]) are separated by a new CALL routed to
+    [y] under that invocation id. *)
 From Nexus Require Import Router.Realm Router.DealerLib Router.DealerProofs Router.DealerReply Router.DealerTimers
      Router.DealerTrace.
 From Nexus Require Import Router.RealmWf Router.RealmStep.
 From Nexus Require Import Router.RealmTraceLib Router.RealmTrace Router.RealmTraceC05 Router.RealmTraceInv
      Router.RealmTraceC03 Router.RealmTraceEx.
 From Nexus Require Import Router.RealmTraceC13 Router.RealmTraceC13Step Router.RealmTraceC13Nd Router.RealmTraceC13Inv
-     Router.RealmTraceC13Thm Router.RealmTraceC13Fire Router.RealmTraceC13Ex.
+     Router.RealmTraceC13Thm Router.RealmTraceC13Fire Router.RealmTraceC13Once Router.RealmTraceC13Ex.
 
 (** ** The gate hypothesis, discharged *)
 Theorem gate_transparent_no_authz : forall cfg ops, c_authz cfg = None -> along gate_transparent (init_realm cfg) ops.
@@ -242,6 +244,28 @@ Theorem interrupted_pending_meaning : forall cfg ops pre y i iopts,
 Proof. exact interrupted_pending_meaning_proof. Qed.
 Print Assumptions interrupted_pending_meaning.
 
+(** at most one INTERRUPT with a reason per invocation: two of them for the same
+    ([y], [i]) are separated by a new CALL routed to [y] under that id *)
+Theorem realm_interrupt_at_most_once_partial : forall cfg ops y i pre e1 mid e2 post,
+    Forall op_ok ops -> k0 cfg + N.of_nat (List.length ops) <= max_idN ->
+    along gate_transparent (init_realm cfg) ops ->
+    trace cfg ops = pre ++ e1 :: mid ++ e2 :: post ->
+    rintr_ev y i e1 -> rintr_ev y i e2 ->
+    exists m1 x q opts proc a kw orc rid det m2,
+      mid = m1 ++ EIn (OMsg x (CCall q opts proc a kw) orc) :: EOut (y, RInvocation i rid det a kw) :: m2.
+Proof. exact interrupt_at_most_once_proof. Qed.
+Print Assumptions realm_interrupt_at_most_once_partial.
+
+Theorem realm_interrupt_at_most_once : forall cfg ops y i pre e1 mid e2 post,
+    c_authz cfg = None ->
+    Forall op_ok ops -> k0 cfg + N.of_nat (List.length ops) <= max_idN ->
+    trace cfg ops = pre ++ e1 :: mid ++ e2 :: post ->
+    rintr_ev y i e1 -> rintr_ev y i e2 ->
+    exists m1 x q opts proc a kw orc rid det m2,
+      mid = m1 ++ EIn (OMsg x (CCall q opts proc a kw) orc) :: EOut (y, RInvocation i rid det a kw) :: m2.
+Proof. exact interrupt_at_most_once_noauthz_proof. Qed.
+Print Assumptions realm_interrupt_at_most_once.
+
 (** the literal statement is false: INTERRUPT for an invocation that never existed *)
 Theorem realm_interrupt_only_for_pending_refuted :
     exists cfg ops y i iopts pre post,
@@ -333,3 +357,11 @@ Example histories_c13_gate_hypotheses_satisfiable :
     Forall op_ok TmoEx.ops /\ k0 AuthzEx.cfgA + N.of_nat (List.length TmoEx.ops) <= max_idN /\
     along gate_transparent (init_realm AuthzEx.cfgA) TmoEx.ops.
 Proof. exact AuthzEx.hyps. Qed.
+
+(** at most once: two INTERRUPTs with a reason for (11, 1), session 11 having left and joined again in between *)
+Example histories_c13_once_hypotheses_satisfiable :
+    Forall op_ok OnceEx.ops /\ k0 cfg13 + N.of_nat (List.length OnceEx.ops) <= max_idN /\
+    along gate_transparent (init_realm cfg13) OnceEx.ops /\
+    trace cfg13 OnceEx.ops = OnceEx.pre ++ OnceEx.e1 :: OnceEx.mid ++ OnceEx.e2 :: [] /\
+    rintr_ev 11 1 OnceEx.e1 /\ rintr_ev 11 1 OnceEx.e2.
+Proof. exact OnceEx.hyps. Qed.
